@@ -107,6 +107,12 @@ type got struct {
 
 	suByNum, suByHash *core.StateUpdate
 	cm                *core.BlockCommitments
+
+	// the typed-bucket view of the same records (used by the pruner)
+	hdrBucket core.Header
+	numBucket uint64
+	suBucket  core.StateUpdate
+	cmBucket  core.BlockCommitments
 }
 
 func (g *got) e(name string, err error) bool {
@@ -257,6 +263,18 @@ func readCase(r db.KeyValueReader, c *blockCase, deep bool) *got {
 		g.raw, err = core.BlockTransactionsBucket.RawValue().Get(r, n)
 		g.e("raw BlockTransactions", err)
 		g.raw = bytes.Clone(g.raw)
+	}
+	g.hdrBucket, err = core.BlockHeadersByNumberBucket.Get(r, n)
+	g.e("BlockHeadersByNumberBucket.Get", err)
+	g.numBucket, err = core.BlockHeaderNumbersByHashBucket.Get(r, c.Hdr.Hash)
+	g.e("BlockHeaderNumbersByHashBucket.Get", err)
+	if c.SU != nil {
+		g.suBucket, err = core.StateUpdatesByBlockNumberBucket.Get(r, n)
+		g.e("StateUpdatesByBlockNumberBucket.Get", err)
+	}
+	if c.CM != nil {
+		g.cmBucket, err = core.BlockCommitmentsBucket.Get(r, n)
+		g.e("BlockCommitmentsBucket.Get", err)
 	}
 	if c.SU != nil {
 		g.suByNum, err = core.GetStateUpdateByBlockNum(r, n)
@@ -470,6 +488,18 @@ func (h *harness) compare(c *blockCase, g *got, be string, level string) (ok boo
 	}
 	if c.CM != nil && has("GetBlockCommitmentByBlockNum") {
 		chk("GetBlockCommitmentByBlockNum", diff(c.CM, g.cm))
+	}
+	if has("BlockHeadersByNumberBucket.Get") {
+		chk("BlockHeadersByNumberBucket.Get", diff(*c.Hdr, g.hdrBucket))
+	}
+	if has("BlockHeaderNumbersByHashBucket.Get") && g.numBucket != c.Hdr.Number {
+		bad("BlockHeaderNumbersByHashBucket.Get", fmt.Sprintf(": %d != %d", c.Hdr.Number, g.numBucket))
+	}
+	if c.SU != nil && has("StateUpdatesByBlockNumberBucket.Get") {
+		chk("StateUpdatesByBlockNumberBucket.Get", diff(*c.SU, g.suBucket))
+	}
+	if c.CM != nil && has("BlockCommitmentsBucket.Get") {
+		chk("BlockCommitmentsBucket.Get", diff(*c.CM, g.cmBucket))
 	}
 	return ok
 }
